@@ -118,16 +118,16 @@ Theorem C16_scaled_follows_newfb :
     (12, 8) = (Z.quot (sW st) 2, Z.quot (sH st) 2).
 Proof. exact scaled_follows_newfb. Qed.
 
-(* closed but not yet reaped clients (rfbCloseClient: sock = -1, record still in the client list).
-   FULL STATEMENT (refuted on the present library, a regression of the F12 fix 08f23bc): reaping
-   (rfbClientConnectionGone) never touches freed memory.  Witness f12c_ops: scaled client, closed,
-   rfbNewFramebuffer before the next rfbProcessEvents: its scaled screen is freed under it (the
-   re-pointing loop uses rfbGetClientIterator, which skips closed clients), the reaping dereferences it.
-   Replayed on the library by corpus/C16/f12c_closed_scaled_newfb_reap.script (ASan: heap-use-after-free
-   in rfbClientConnectionGone).  Proposed fix: notes/fix_C16_3.diff. *)
-Theorem C16_reap_after_newfb_refuted :
-  exists st, run (init_state 12 8 4) f12c_ops = Some st /\ Inv st /\ step st OpReap = None.
-Proof. exact reap_dangling_after_newfb. Qed.
+(* closed but not yet reaped clients (rfbCloseClient: sock = -1, record still in the client list): since
+   fix_C16_3 rfbNewFramebuffer also re-points them, reaping never touches a freed scaled screen; the
+   former witness (corpus/C16/f12c_closed_scaled_newfb_reap.script) passes *)
+Theorem C16_reap_after_newfb_ok :
+  exists st st', run (init_state 12 8 4) f12c_ops = Some st /\ Inv st /\ step st OpReap = Some (st', []) /\ Inv st'.
+Proof. exact reap_ok_after_newfb. Qed.
+
+Theorem C16_newfb_leaves_no_dangling : forall w h oW oH chain c,
+  cDangling (snd (rescale_client w h oW oH chain c)) = false.
+Proof. exact rescale_client_not_dangling. Qed.
 
 Theorem C16_reap_partial : forall st,
   existsb cDangling (sClients st) = false -> exists st', step st OpReap = Some (st', []).
